@@ -64,6 +64,10 @@ type Sched struct {
 	spawned    map[string]int
 	parents    map[uint64]uint64
 	unnamed    []*Thread
+	// Fine: releasing a lock is a scheduling point too (the thread parks right after Unlock /
+	// RUnlock), so that accesses a thread makes after leaving a critical section can be ordered
+	// after another thread's critical section. Off by default: it doubles the points per lock.
+	Fine bool
 }
 
 // parentOf is called with s.mu held by the goroutine g itself.
@@ -321,14 +325,22 @@ func Unlock(ls *LockState) {
 		s.Violations = append(s.Violations, "unlock of an unlocked mutex at "+callSite(2))
 	}
 	ls.Held, ls.Owner = false, nil
+	fine := s.Fine
 	s.mu.Unlock()
+	if fine {
+		s.park("unlocked", nil, false)
+	}
 }
 
 func RUnlock(ls *LockState) {
 	s := cur.Load()
 	s.mu.Lock()
 	ls.Readers--
+	fine := s.Fine
 	s.mu.Unlock()
+	if fine {
+		s.park("runlocked", nil, false)
+	}
 }
 
 // ---- explorer side (called from the bubble's root goroutine after synctest.Wait) ----------------
